@@ -380,6 +380,63 @@ def run(ctx):
                 if why:
                     ctx.violation("eiggrad/substituted-forward/%s" % method, "symeig(%s%s) run inside uselinopparams, differentiated after the block: %s" % (method, ", with M" if withM else "", why),
                                   {"method": method, "M": withM})
+        # ---- operators that are diagonal / block-decoupled at the evaluation point: the shifted systems (A - lambda_i M) of the backward
+        #      pass are EXACTLY singular in floating point (a random basis only makes them ill-conditioned); both ends of the spectrum,
+        #      spectra of either sign, dense and matrix-free operators, with a (diagonal) metric
+        for basis in ("diagonal", "two-blocks", "rotated"):
+            for mode in ("lowest", "uppest"):
+                for sign in ("positive", "negative", "mixed"):
+                    for method, opkind, withM in (("custom_exacteig", "dense", False), ("custom_exacteig", "matrix-free", False), ("davidson", "dense", False),
+                                                  ("custom_exacteig", "dense", True)):
+                        ntab += 1
+                        ctx.case(key=("decoupled", basis, mode, sign, method, opkind, withM))
+                        n, neig = 5, 2
+                        lam = torch.tensor([1.0, 2.5, 3.0, 4.7, 6.0], dtype=DT)
+                        lam = {"positive": lam, "negative": -lam.flip(0), "mixed": lam - 3.2}[sign]
+                        if basis == "diagonal":
+                            Qb = torch.eye(n, dtype=DT)
+                        elif basis == "two-blocks":
+                            Qb = torch.zeros(n, n, dtype=DT)
+                            Qb[:2, :2] = torch.linalg.qr(torch.randn(2, 2, generator=g, dtype=DT))[0]
+                            Qb[2:, 2:] = torch.linalg.qr(torch.randn(3, 3, generator=g, dtype=DT))[0]
+                            Qb = Qb[:, [0, 2, 1, 3, 4]]          # eigenvalues interleaved over the two blocks
+                        else:
+                            Qb = torch.linalg.qr(torch.randn(n, n, generator=g, dtype=DT))[0]
+                        A0 = (Qb * lam) @ Qb.T
+                        M0 = torch.diag(torch.linspace(0.8, 1.4, n, dtype=DT)) if withM else None
+                        G = sym(torch.randn(n, n, generator=g, dtype=DT))
+                        why = None
+                        try:
+                            Ap = A0.clone().requires_grad_()
+                            Mp = M0.clone().requires_grad_() if withM else None
+                            As = sym(Ap)
+                            Aop = LinearOperator.m(As, is_hermitian=True) if opkind == "dense" else HermOp(As)
+                            Mop = LinearOperator.m(sym(Mp), is_hermitian=True) if withM else None
+                            kw = {"min_eps": 1e-12} if method == "davidson" else {}
+                            ev, evec = xitorch.linalg.symeig(Aop, neig=neig, mode=mode, M=Mop, method=method, **kw)
+                            lossx = (ev ** 2).sum() + ((evec @ evec.T) * G).sum()
+                            leaves = [Ap] + ([Mp] if withM else [])
+                            gx = torch.autograd.grad(lossx, leaves)
+                            Ar = A0.clone().requires_grad_()
+                            Mr = M0.clone().requires_grad_() if withM else None
+                            if withM:
+                                Li = torch.linalg.inv(torch.linalg.cholesky(sym(Mr)))
+                                evr, yr = torch.linalg.eigh(Li @ sym(Ar) @ Li.T)
+                                vr = Li.T @ yr
+                            else:
+                                evr, vr = torch.linalg.eigh(sym(Ar))
+                            sel = slice(0, neig) if mode == "lowest" else slice(n - neig, n)
+                            lossr = (evr[sel] ** 2).sum() + ((vr[:, sel] @ vr[:, sel].T) * G).sum()
+                            gr = torch.autograd.grad(lossr, [Ar] + ([Mr] if withM else []))
+                            tol = 1e-7 if method != "davidson" else 1e-5
+                            for nm, a_, b_ in zip(("A", "M"), gx, gr):
+                                if not torch.allclose(a_, b_, atol=tol, rtol=tol):
+                                    why = "gradient w.r.t. %s differs from the dense reference by %.2e" % (nm, float((a_ - b_).abs().max()))
+                        except Exception as e:
+                            why = "raised %s: %s" % (type(e).__name__, str(e)[:140])
+                        if why:
+                            ctx.violation("eiggrad/decoupled/%s/%s" % (basis, mode), "symeig(%s, %s operator%s, mode %s) on a %s spectrum in a %s basis: %s"
+                                          % (method, opkind, ", diagonal M" if withM else "", mode, sign, basis, why), {"basis": basis, "mode": mode, "sign": sign, "method": method})
         # ---- operators that depend non-linearly on their own parameter tensor (second order needs the explicit d2A/dp2 term)
         from props.c02 import NonlinOp
         for method in ("custom_exacteig", "davidson"):
